@@ -113,6 +113,7 @@ Landmarks ==
     i64maxp    |-> [r |-> LMBASE + 41, whole |-> TRUE, f64 |-> TRUE],   \* 2^63
     u64max     |-> [r |-> LMBASE + 50, whole |-> TRUE, f64 |-> FALSE],  \* 2^64-1
     u64maxp    |-> [r |-> LMBASE + 51, whole |-> TRUE, f64 |-> TRUE],   \* 2^64
+    u64maxpp   |-> [r |-> LMBASE + 52, whole |-> TRUE, f64 |-> FALSE],  \* 2^64+1 (needs 65 bits)
     e30        |-> [r |-> LMBASE + 60, whole |-> TRUE, f64 |-> FALSE],  \* 10^30
     f32max     |-> [r |-> LMBASE + 70, whole |-> TRUE, f64 |-> TRUE],   \* MaxFloat32
     f32maxp    |-> [r |-> LMBASE + 71, whole |-> TRUE, f64 |-> TRUE],   \* 2^128
